@@ -742,6 +742,13 @@ def run_drill(case, rec, rng, scene):
         local = DrillholeGroup.create(target.workspace, name="local holes")
         lh = Drillhole.create(target.workspace, parent=local, name="local", collar=[9.0, 9.0, 9.0], surveys=np.array([[0.0, 0.0, -90.0], [10.0, 0.0, -90.0]]))
         lh.add_data({"local log": {"depth": np.array([1.0, 2.0]), "values": np.array([5.0, 6.0])}})
+        if target.workspace is not scene.ws:
+            # one of the holes was copied over on its own before (it keeps its identifier there): the group copy that follows
+            # finds that identifier taken although the group's own is free
+            alone = [c for c in grp.children if getattr(c, "name", "") == "h0"][0].copy(parent=local)
+            rec.check("C12.holes", alone is not None and alone.parent is not None and alone.parent.uid == local.uid, op=where + ":hole-alone", cls=case["cls"], attr="parent", detail="a hole copied on its own into the other workspace's drillhole group is not under that group")
+            alone = None
+            rec.see("hole-copied-alone-before-the-group")
         local = lh = None
         rec.see("target-with-its-own-drillhole-group")
     dig0 = snap.node_digests(snap.raw_snapshot(scene.ws.geoh5))
